@@ -111,3 +111,53 @@ def rel_forms(all_weekday_spellings=True):
             for tpl in WD_NEXT_WEEK:
                 out.append(("wd-next-week", wd, tpl.format(wd=name)))
     return out
+
+
+# --- day of month (rules.py:158-173) ----------------------------------------------------------
+def dom_forms(n):
+    """strict-tier spellings of 'the n-th' (bare digits are ambiguous with hours: not listed)"""
+    suf = "th"
+    if n % 10 == 1 and n != 11:
+        suf = "st"
+    elif n % 10 == 2 and n != 12:
+        suf = "nd"
+    elif n % 10 == 3 and n != 13:
+        suf = "rd"
+    return ["{}.".format(n), "{}{}".format(n, suf), "the {}{}".format(n, suf), "am {}.".format(n),
+            "on the {}{}".format(n, suf), "{:02d}.".format(n), "den {}.".format(n)]
+    # not listed: German '5ten'/'20sten' - '<n>ten' also reads as '<n> ten (o'clock)' by the
+    # library's own patterns (competing reading, genuinely ambiguous in a bilingual pattern set)
+
+
+# --- day + month without year (rules.py:260-272, 367-396) --------------------------------------
+def doy_forms(day, month, month_names=None):
+    names = month_names if month_names is not None else MONTH_FORMS[month - 1]
+    out = ["{}.{}.".format(day, month), "{:02d}.{:02d}.".format(day, month)]
+    for nm in names:
+        nmc = nm.capitalize()
+        out += ["{}. {}".format(day, nmc), "{} {}".format(nmc, day), "{}th of {}".format(day, nmc) if day not in (1, 2, 3, 21, 22, 23, 31)
+                else "{}{} of {}".format(day, {1: "st", 2: "nd", 3: "rd"}[day % 10], nmc), "{} {}".format(day, nmc)]
+    return out
+
+
+# --- parts of day (rules.py:122-145) -> key of pod_hours ----------------------------------------
+POD_FORMS = {
+    # not listed: 'so früh', 'so früh/spät wie möglich' - 'so' is also the pattern's abbreviation of Sunday
+    "first": ["first", "earliest", "as early", "erste", "erster", "frühestens", "frühest",
+              "as early as possible", "first possible", "frühestens möglich"],
+    "last": ["last", "latest", "letzte", "letzter", "as late as possible", "spätest möglich"],
+    "earlymorning": ["very early", "sehr früh"],
+    "lateevening": ["very late", "sehr spät"],
+    "morning": ["morning", "morgens", "morgends", "früh", "frühe", "in der früh", "in der frühe"],
+    "forenoon": ["forenoon", "vormittag", "vormittags"],
+    "afternoon": ["afternoon", "nachmittag", "nachmittags"],
+    "noon": ["noon", "mittag", "mittags"],
+    "evening": ["evening", "tonight", "abend", "abends", "late", "spät"],
+    "night": ["night", "nacht", "nachts"],
+}
+# single modifiers (rules.py:112-119): modifier word -> prefix of the pod_hours key
+POD_MODS = {"early": "early", "late": "late", "very early": "veryearly", "very late": "verylate",
+            "früh": "early", "früher": "early", "frühen": "early", "spät": "late", "später": "late", "späten": "late",
+            "sehr früh": "veryearly", "sehr spät": "verylate"}
+POD_MOD_BASES = {"morning": ["morning", "morgens"], "afternoon": ["afternoon", "nachmittag"], "evening": ["evening", "abend"],
+                 "night": ["night", "nacht"], "forenoon": ["forenoon", "vormittag"], "noon": ["noon", "mittag"]}
